@@ -37,6 +37,7 @@ type Case struct {
 	Acct, Domain                                       string // handle
 	Field                                              string // planted: which field of the served document carries the URL
 	ExpectTarget                                       string `json:"expect_target,omitempty"` // known by construction for clean URLs ("" = unknown)
+	Status                                             int    `json:"status,omitempty"`        // what the servers answer to everything that is not planted (default 200)
 }
 
 const accept1 = `application/activity+json,application/ld+json; profile="https://www.w3.org/ns/activitystreams"`
@@ -85,10 +86,17 @@ func check(c Case) vrep.Result {
 	classes := []string{"kind:" + c.Kind}
 	// any target on any host is answered, so every well-formed request completes
 	for h := 0; h < sim.Hosts(); h++ {
-		sim.Set(h, "*", vsim.JSON(actorDoc))
+		switch c.Status {
+		case 0, 200:
+			sim.Set(h, "*", vsim.JSON(actorDoc))
+		default:
+			// refusals and errors must not make servitor say more about itself on a second try
+			sim.Set(h, "*", &vsim.Route{Raw: fmt.Sprintf("HTTP/1.1 %d Refused\r\nContent-Type: application/activity+json\r\nWWW-Authenticate: Basic realm=\"x\"\r\nSet-Cookie: session=1\r\n\r\n%s", c.Status, actorDoc)})
+		}
 	}
 	// the process runs with cache_size = 1: one filler fetch empties the response cache, so that a
 	// URL which was fetched by an earlier case is requested again
+	sim.Set(1, prefix+"/filler", vsim.JSON(actorDoc)) // always a success, whatever the case's servers answer otherwise: only successes are cached
 	if link, err := url.Parse(sim.URL(1, prefix+"/filler")); err == nil {
 		jtp.Get(link, accept1, []string{"application/activity+json"}, 0)
 	}
@@ -192,7 +200,7 @@ func isHostile(s string) bool {
 type pe struct{ text, expect string } // expect "" = unknown, "-" = same as text
 
 var paths = []pe{{"/doc", "-"}, {"", "/"}, {"/", "-"}, {"/a/b/c", "-"}, {"/a%20b", "-"}, {"/a b", "/a%20b"}, {"/ü", "/%C3%BC"}, {"/a/../b", "-"}, {"//double", "-"},
-	{"/a%0d%0aX-Injected:%201", "-"}, {"/a\r\nX-Injected: 1", ""}, {"/a\nb", ""}, {"/a\tb", ""}, {"/%zz", ""}, {"/a%", ""}, {"/;p=1", "-"}, {"/a%2Fb", "-"},
+	{"/a%0d%0aX-Injected:%201", "-"}, {"/a%0D%0AX-Injected:%20yes", "-"}, {"/a%3Fb%23c", "-"}, {"/%C3%BC", "-"}, {"/a%0AHost:%20evil", "-"}, {"/%E2%80%A8", "-"}, {"/a\r\nX-Injected: 1", ""}, {"/a\nb", ""}, {"/a\tb", ""}, {"/%zz", ""}, {"/a%", ""}, {"/;p=1", "-"}, {"/a%2Fb", "-"},
 	{"/a%00b", "-"}, {"/a\x00b", ""}, {"/a\\b", ""}, {"/'\"<>", ""}, {"/a%20HTTP/1.1%0d%0a", "-"}, {"/ HTTP/1.1", ""}, {"/ ", ""}, {"/ ", ""}, {"/\x7f", ""}}
 var queries = []pe{{"", "-"}, {"?x=1", "-"}, {"?", ""}, {"?x=a b", ""}, {"?x=a%20b", "-"}, {"?x=%0d%0aHost:%20evil", "-"}, {"?a=1&b=ü", ""}, {"?x=1#", ""}, {"?x=\r\nY: z", ""},
 	{"?x=a HTTP/1.0", ""}, {"?x=\t", ""}, {"??", ""}, {"?x=/../", "-"}, {"? ", ""}}
@@ -231,6 +239,7 @@ var domains = []string{"%H0%", "%H0%", "%H0%", "%H0%", "%H0%", "%H0%", "%H0%", "
 
 func gen(t *rapid.T) Case {
 	c := Case{Kind: rapid.SampledFrom([]string{"url", "url", "handle", "planted", "planted", "location"}).Draw(t, "kind")}
+	c.Status = rapid.SampledFrom([]int{200, 200, 200, 403, 401, 404, 429, 500, 407}).Draw(t, "status")
 	switch c.Kind {
 	case "handle":
 		c.Acct = rapid.SampledFrom(accts).Draw(t, "acct")
